@@ -35,18 +35,18 @@ ZL_VERIF=/tmp/seed-ev /verif/bin/zlcheck -property $P -tier quick > /tmp/seed-ch
 git -C /repo checkout -q -- .
 DET="missed"; [ $RC -eq 1 ] && grep -q "VIOLATION property=$P" /tmp/seed-check.log && DET="detected"
 echo "check rc=$RC => $DET"; grep "^REPORT" /tmp/seed-check.log | cut -c1-260 | head -5
-D=/verif/seeded/$P-$K; mkdir -p $D
+D=/verif/seeded/$P-${OUTK:-$K}; mkdir -p $D
 cp $O/patch$K.diff $D/patch.diff; cp $O/demo${K}_test.go $D/demo_test.go; cp $O/notes$K.txt $D/notes.txt 2>/dev/null
 python3 - "$P" "$K" "$DET" "$DDIR" "$TAGS" "$TEST" <<'PY'
-import json,sys,re
+import json,sys,re,os
 p,k,det,ddir,tags,test=sys.argv[1:7]
 reports=[l.strip()[:400] for l in open('/tmp/seed-check.log') if l.startswith('REPORT')]
-notes=open('/verif/seeded/%s-%s/notes.txt'%(p,k)).read() if True else ''
+notes=open('/verif/seeded/%s-%s/notes.txt'%(p,os.environ.get('OUTK',k))).read() if True else ''
 meta={"property":p,"source":"independent sub-agent given only the property text and a scratch worktree",
  "breaks":notes.strip().split('\n')[0][:300],
  "needs_to_manifest":notes.strip()[:1200],
  "demo":{"file":"demo_test.go","place_in":ddir,"test":test,"tags":tags},
  "confirmed":{"worktree":"/tmp/seed-%s (removed afterwards)"%p,"build":"go build ./... ok","suite":"go test ./... unchanged (journald socket test fails with and without)","suite_binary_log":"go test -tags binary_log . ./internal/cbor","demo_on_clean":"pass","demo_with_change":"fail"},
  "check":{"cmd":"bin/zlcheck -property %s -tier quick (patch applied to /repo, then git checkout -- .)"%p,"outcome":det,"reports":reports[:6]}}
-json.dump(meta,open('/verif/seeded/%s-%s/meta.json'%(p,k),'w'),indent=1)
+json.dump(meta,open('/verif/seeded/%s-%s/meta.json'%(p,os.environ.get('OUTK',k)),'w'),indent=1)
 PY
